@@ -221,52 +221,70 @@ def rule_numeric_conversion(rep, tier, rule="C-num-conv"):
 
 
 def rule_exact_formatter(rep, rule="C-exact"):
-    """numToStr: repr on the non-integer path; the integer written is the integer compared; tolerance <= 1e-14."""
+    """numToStr, interpreted with its closeness test forced each way: when the value is *not* near an integer the
+    text is repr/str of the value (an exact numeral); when it is, the integer written is the integer the value was
+    compared with; and the comparison's tolerance is at most 1e-14 relative, 0 absolute."""
+    from ..absint import Str
+
     idx = common.ctx()
     fn = idx.get("utilities.my_math:numToStr")
     rep.functions.add(fn.qual)
-    ifs = [s for s in fn.node.body if isinstance(s, ast.If)]
-    if len(ifs) != 1 or not ifs[0].orelse:
-        rep.undecided(rule, fn.short, "if isclose(x, int(x))", "numToStr no longer has the shape 'if <near integer>: %d else: repr'")
+    x = Lin.var("x")
+    st = State([("0", Lin.num(0))], [0])
+    results = {}
+    for near in (True, False):
+        seen = []
+
+        def isclose(I, args, kwargs, near=near, seen=seen):
+            seen.append((args, kwargs))
+            return near
+        I = Interp(idx, st, overrides={"my_math.isclose": isclose})
+        # int(), round(), math.floor ... of the symbolic value are atoms named after the operation
+        I.builtin_overrides = {
+            "int": lambda I_, a, k: Lin.var("int(%r)" % (a[0],)) if isinstance(a[0], Lin) and not a[0].is_const() else I_.call_builtin(_plain("int"), a, k),
+            "round": lambda I_, a, k: Lin.var("round(%r)" % (a[0],)),
+            "math.floor": lambda I_, a, k: Lin.var("floor(%r)" % (a[0],)),
+            "math.isclose": isclose,
+        }
+        try:
+            results[near] = (I.call_function(fn, [x], {}), seen)
+        except PyRaise as e:
+            rep.refuted(rule, fn.short, "value %s an integer" % ("near" if near else "not near"), "numToStr raises %s" % e.name, loc=fn.loc)
+            return
+        except Undecided as e:
+            rep.undecided(rule, fn.short, "value %s an integer" % ("near" if near else "not near"), str(e))
+            return
+    far, seen_far = results[False]
+    ok = isinstance(far, Str) and far.kind == "num" and far.parts[0].same(x)
+    rep.check(ok, rule, fn.short, "value not near an integer -> %r" % (far,), ok="written with repr/str of the value itself (shortest round-tripping numeral)",
+              bad="a value that is not near an integer is written as %r, not as the exact numeral of the value: timestamps cannot come back bit-identical" % (far,), loc=fn.loc)
+    near_v, seen_near = results[True]
+    if not seen_near:
+        rep.undecided(rule, fn.short, "integer test", "numToStr no longer calls a closeness test (isclose)")
         return
-    iff = ifs[0]
-    x = fn.params[0]
-    test = iff.test
-    std_isclose = isinstance(test, ast.Call) and norm(test.func) == "math.isclose" and idx.resolve_symbol(fn.module, test.func) is None
-    if not ((tf.is_call_to(idx, fn, test, "isclose") or std_isclose) and len(test.args) >= 2):
-        rep.undecided(rule, fn.short, norm(test), "integer test is not a call of isclose(x, <integer>)")
+    args, kwargs = seen_near[0]
+    cmp_with = [a for a in args[:2] if not (isinstance(a, Lin) and a.same(x))]
+    comparand = cmp_with[0] if cmp_with else x
+
+    def denotes(v):
+        """the integer a written text denotes, as a name"""
+        if isinstance(v, Str) and v.kind == "trunc":
+            inner = v.parts[0]
+            return "int(x)" if inner.same(x) else repr(inner)
+        if isinstance(v, Str) and v.kind == "num":
+            return repr(v.parts[0])
+        return None
+    printed = denotes(near_v)
+    rep.check(printed is not None and printed == repr(comparand), rule, fn.short, "value near an integer: compared with %r, writes %s" % (comparand, printed or near_v),
+              ok="the integer written is the integer the value was compared with",
+              bad="the value is compared with %r but the text written denotes %s: a value just below an integer is written as the integer below it (0.9999999999999999 -> 0)" % (comparand, printed or near_v), loc=fn.loc)
+    # tolerance: defaults of the callee, overridden by literal arguments at the call
+    calls = [n for n in ast.walk(fn.node) if isinstance(n, ast.Call) and (tf.is_call_to(idx, fn, n, "isclose") or norm(n.func) == "math.isclose")]
+    if len(calls) != 1:
+        rep.undecided(rule, fn.short, "tolerance", "expected exactly one closeness call in numToStr, found %d" % len(calls))
         return
-    comparand = test.args[1] if norm(test.args[0]) == x else test.args[0]
-    # integer branch
-    fmt = [n for n in ast.walk(ast.Module(body=iff.body, type_ignores=[])) if isinstance(n, ast.BinOp) and isinstance(n.op, ast.Mod) and isinstance(n.left, ast.Constant)]
-    if len(fmt) != 1 or "%d" not in fmt[0].left.value:
-        rep.undecided(rule, fn.short, norm(iff.body[0]), "integer branch is not a single '%d' format")
-    else:
-        arg = fmt[0].right
-        printed = "int(%s)" % x if norm(arg) == x else norm(arg)  # '%d' % float truncates like int()
-        rep.check(printed == norm(comparand), rule, fn.short, "isclose(%s, %s) -> '%%d' %% %s" % (x, norm(comparand), norm(arg)),
-                  ok="the integer written is the integer the value was compared with",
-                  bad="the value is compared with %s but '%%d' writes %s: a value just below an integer is written as the integer below it (0.9999999999999999 -> 0)" % (norm(comparand), printed), loc=fn.where(fmt[0]))
-    # non-integer branch: only repr / str / %r / %s of repr
-    bad = []
-    for n in ast.walk(ast.Module(body=iff.orelse, type_ignores=[])):
-        if isinstance(n, ast.BinOp) and isinstance(n.op, ast.Mod) and isinstance(n.left, ast.Constant) and isinstance(n.left.value, str):
-            for m in tf.SLOT_RE.finditer(n.left.value):
-                if m.group(1) not in ("s", "r") or m.group(0) not in ("%s", "%r"):
-                    bad.append(m.group(0))
-            args = n.right.elts if isinstance(n.right, ast.Tuple) else [n.right]
-            for a in args:
-                if not (norm(a) in ("repr(%s)" % x, "str(%s)" % x) or (norm(a) == x and "%r" in n.left.value)):
-                    bad.append(norm(a))
-        if isinstance(n, ast.Call) and norm(n.func) in ("round", "format"):
-            bad.append(norm(n))
-        if isinstance(n, ast.JoinedStr):
-            for v in n.values:
-                if isinstance(v, ast.FormattedValue) and (v.format_spec is not None or v.conversion not in (-1, 114)):
-                    bad.append(norm(n))
-    rep.check(not bad, rule, fn.short, norm(iff.orelse[0])[:80], ok="non-integers are written with repr (shortest round-tripping form)",
-              bad="a fixed-precision format (%s) is applied to timestamps: they cannot come back bit-identical" % ", ".join(bad), loc=fn.where(iff.orelse[0]))
-    # tolerance of isclose: the callee's defaults, overridden by literal arguments of the call
+    test = calls[0]
+    std_isclose = norm(test.func) == "math.isclose" and idx.resolve_symbol(fn.module, test.func) is None
     ic = idx.get("utilities.my_math:isclose")
     if std_isclose:
         tol = {"rel_tol": 1e-09, "abs_tol": 0.0}  # documented defaults of math.isclose
@@ -285,8 +303,14 @@ def rule_exact_formatter(rep, rule="C-exact"):
             undecidable.append(k)
     relv, abv = tol.get("rel_tol"), tol.get("abs_tol")
     rep.check(relv is not None and relv <= 1e-14 and abv == 0 and not undecidable, rule, where, "rel_tol=%s abs_tol=%s" % (relv, abv),
-              ok="near-integer tolerance is at most 1e-14 relative and 0 absolute", bad="numToStr rounds to an integer values further than 1e-14 (relative) from it: a timestamp like 2.000000001 is written as 2")
+              ok="near-integer tolerance is at most 1e-14 relative and 0 absolute", bad="numToStr rounds to an integer values further than 1e-14 (relative) from it: a timestamp like 2.000000001 (or 5e-15 with an absolute tolerance) is written as an integer")
     rep.floor(rule, 3)
+
+
+def _plain(name):
+    from ..absint import Builtin
+
+    return Builtin(name)
 
 
 def _is_enumerate_index(fn, arg) -> bool:
@@ -834,33 +858,114 @@ def rule_json_protocol(rep, rule="C-keys"):
 # ------------------------------------------------------------------------------------ reader control flow
 
 
+def _flow_dispatch(rep, rule):
+    """parseTextgridStr interpreted on one exemplar header per layout with json.loads and the two text parsers
+    abstracted to recorders: JSON first; the long parser for the long layout, the short parser for both short
+    headers; the plain-json dictionary is up-converted; entries with an empty label are dropped from every tier iff
+    includeEmptyIntervals is False, and nothing else is dropped or reordered."""
+    from ..absint import label_var
+
+    idx = common.ctx()
+    fn = idx.get("utilities.textgrid_io:parseTextgridStr")
+    rep.functions.add(fn.qual)
+    rep.functions.add(idx.get("utilities.textgrid_io:_removeBlanks").qual)
+    st = State([("0", Lin.num(0))], [0])
+    docs = {
+        "long text": ('File type = "ooTextFile"\nObject class = "TextGrid"\n\nxmin = 0 \nxmax = 1 \ntiers? <exists> \nsize = 1 \nitem []: \n    item [1]:\n', "normal"),
+        "short text": ('File type = "ooTextFile"\nObject class = "TextGrid"\n\n0\n1\n<exists>\n1\n"IntervalTier"\n"a"\n0\n1\n0\n', "short"),
+        "short text (explicit header)": ('File type = "ooTextFile short"\n"TextGrid"\n\n0\n1\n<exists>\n1\n"IntervalTier"\n"item [1]"\n0\n1\n0\n', "short"),
+        "textgrid_json": ("{...}", "tgjson"),
+        "json": ("{...}", "json"),
+    }
+
+    def generic():
+        lv = label_var("L")
+        iv = [Tup([Lin.var("s1"), Lin.var("e1"), "a"], "Interval"), Tup([Lin.var("s2"), Lin.var("e2"), ""], "Interval"), Tup([Lin.var("s3"), Lin.var("e3"), lv], "Interval")]
+        pv = [Tup([Lin.var("t1"), ""], "Point"), Tup([Lin.var("t2"), "b"], "Point"), Tup([Lin.var("t3"), ""], "Point")]
+        t1, t2, d = DictVal(), DictVal(), DictVal()
+        t1.d = {"class": "IntervalTier", "name": "A", "xmin": Lin.var("m"), "xmax": Lin.var("M"), "entries": Lst(iv)}
+        t2.d = {"class": "TextTier", "name": "B", "xmin": Lin.var("m"), "xmax": Lin.var("M"), "entries": Lst(pv)}
+        d.d = {"xmin": Lin.var("m"), "xmax": Lin.var("M"), "tiers": Lst([t1, t2])}
+        return d, iv, pv
+
+    for what, (text, kind) in docs.items():
+        for include in (False, True):
+            log = []
+            G, iv, pv = generic()
+            raw = DictVal()
+            raw.d = ({"start": Lin.var("m"), "end": Lin.var("M"), "tiers": DictVal()} if kind == "json" else dict(G.d))
+
+            def loads(I, args, kwargs):
+                log.append("json.loads")
+                if kind in ("json", "tgjson"):
+                    return raw if kind == "json" else G
+                raise PyRaise("JSONDecodeError")
+
+            def parser(name):
+                def f(I, args, kwargs):
+                    log.append(name)
+                    return G
+                return f
+            ov = dict(default_overrides())
+            ov.update({"textgrid_io._parseShortTextgrid": parser("short"), "textgrid_io._parseNormalTextgrid": parser("normal"), "textgrid_io._upconvertDictionaryFromJson": parser("up")})
+            I = Interp(idx, st, overrides=ov)
+            I.builtin_overrides = {"json.loads": loads}
+            case = "%s, includeEmptyIntervals=%s" % (what, include)
+            try:
+                out = I.call_function(fn, [text, include], {})
+            except PyRaise as e:
+                rep.refuted(rule, fn.short, case, "raises %s" % e.name, loc=fn.loc)
+                continue
+            except Undecided as e:
+                rep.undecided(rule, fn.short, case, str(e))
+                continue
+            problems = []
+            want_log = {"normal": ["json.loads", "normal"], "short": ["json.loads", "short"], "tgjson": ["json.loads"], "json": ["json.loads", "up"]}[kind]
+            if log != want_log:
+                problems.append("decoding steps %s, expected %s" % (log, want_log))
+            if out is not G:
+                problems.append("the parser's dictionary is not what is returned")
+            else:
+                for tname, t, orig in (("interval", I.iterate(G.d["tiers"])[0], iv), ("point", I.iterate(G.d["tiers"])[1], pv)):
+                    got = I.iterate(t.d["entries"])
+                    exp = orig if include else [e for e in orig if not (isinstance(e.items[-1], str) and e.items[-1] == "")]
+                    if len(got) != len(exp) or any(a is not b for a, b in zip(got, exp)):
+                        problems.append("%s tier keeps %d of %d entries, expected %d (%s)" % (tname, len(got), len(orig), len(exp), "all" if include else "exactly those with a non-empty label, in order"))
+            rep.check(not problems, rule, fn.short, case, ok="decoded by %s; %s" % (" > ".join(want_log), "every entry kept" if include else "exactly the empty-labelled entries of every tier dropped"),
+                      bad="; ".join(problems), loc=fn.loc)
+
+
 def rule_reader_flow(rep, rule="C-flow"):
     """CRLF normalisation dominates scanning; format sniffing order; blank removal; encoding fallback."""
     idx = common.ctx()
     for spec in (LONG_R, SHORT_R):
         fn = idx.get(spec)
-        first = fn.node.body[0] if not isinstance(fn.node.body[0], ast.Expr) else fn.node.body[1]
-        ok = isinstance(first, ast.Assign) and norm(first.value) == "data.replace('\\r\\n', '\\n')" and norm(first.targets[0]) == "data"
-        rep.check(ok, rule, fn.short, norm(first)[:60], ok="CRLF is normalised before anything scans the text", bad="the text is scanned before '\\r\\n' is normalised to '\\n': CRLF files parse differently from LF files", loc=fn.where(first))
-    # parseTextgridStr: json first, fallback catches ValueError; blank removal iff includeEmptyIntervals is False
-    fn = idx.get("utilities.textgrid_io:parseTextgridStr")
-    tr = [s for s in fn.node.body if isinstance(s, ast.Try)]
-    ok = bool(tr) and any(isinstance(n, ast.Call) and norm(n.func) == "json.loads" for n in ast.walk(ast.Module(body=tr[0].body, type_ignores=[]))) and any(h.type is not None and norm(h.type) == "ValueError" for h in tr[0].handlers)
-    rep.check(ok, rule, fn.short, "try: json.loads ... except ValueError", ok="JSON is tried first; only a JSON decoding error falls back to the text parsers", bad="format sniffing no longer tries JSON first with a ValueError fallback")
-    ifs = [s for s in fn.node.body if isinstance(s, ast.If) and "includeEmptyIntervals" in norm(s.test)]
-    ok = len(ifs) == 1 and norm(ifs[0].test) == "includeEmptyIntervals is False" and any(isinstance(n, ast.Call) and norm(n.func) == "_removeBlanks" for n in ast.walk(ifs[0])) and not ifs[0].orelse
-    rep.check(ok, rule, fn.short, norm(ifs[0].test) if ifs else "includeEmptyIntervals", ok="_removeBlanks runs for every tier iff includeEmptyIntervals is False", bad="blank removal is not governed by 'includeEmptyIntervals is False' alone")
-    rb = idx.get("utilities.textgrid_io:_removeBlanks")
-    pred = [n for n in ast.walk(rb.node) if isinstance(n, ast.Compare)]
-    ok = len(pred) == 1 and norm(pred[0]) in ("entry[-1] != ''", "'' != entry[-1]")
-    rep.check(ok, rule, rb.short, norm(pred[0]) if pred else "predicate", ok="keeps exactly the entries whose label is not the empty string", bad="blank removal drops entries by a different predicate than 'label == \"\"'")
+        par = fn.params[0]
+        # the first statement that mentions the text must be the CRLF normalisation of the text itself
+        first = None
+        for st_ in fn.node.body:
+            if any(isinstance(n, ast.Name) and n.id == par for n in ast.walk(st_)):
+                first = st_
+                break
+        ok = False
+        if isinstance(first, ast.Assign) and len(first.targets) == 1 and isinstance(first.targets[0], ast.Name):
+            v = first.value
+            ok = (isinstance(v, ast.Call) and isinstance(v.func, ast.Attribute) and v.func.attr == "replace" and norm(v.func.value) == par
+                  and len(v.args) == 2 and all(isinstance(a, ast.Constant) for a in v.args) and v.args[0].value == "\r\n" and v.args[1].value == "\n")
+            if ok and first.targets[0].id != par:
+                # normalised copy under another name: the raw text must not be used afterwards
+                later = [n for st2 in fn.node.body[fn.node.body.index(first) + 1:] for n in ast.walk(st2) if isinstance(n, ast.Name) and n.id == par]
+                ok = not later
+        rep.check(ok, rule, fn.short, norm(first)[:60] if first is not None else "?", ok="CRLF is normalised before anything scans the text", bad="the text is scanned before '\\r\\n' is normalised to '\\n': CRLF files parse differently from LF files", loc=fn.where(first) if first is not None else fn.loc)
+    # parseTextgridStr interpreted with the parsers abstracted to recorders
+    _flow_dispatch(rep, rule)
     # openTextgrid: utf-16 first, UnicodeError fallback to utf-8
     ot = idx.get("textgrid:openTextgrid")
     tr = [s for s in ot.node.body if isinstance(s, ast.Try)]
     encs = [norm(k.value) for n in ast.walk(ot.node) if isinstance(n, ast.Call) and norm(n.func) == "io.open" for k in n.keywords if k.arg == "encoding"]
     ok = bool(tr) and encs[:2] == ["'utf-16'", "'utf-8'"] and any(h.type is not None and norm(h.type) == "UnicodeError" for h in tr[0].handlers)
     rep.check(ok, rule, ot.short, "encodings " + ", ".join(encs), ok="BOM-marked UTF-16 is tried first, UnicodeError falls back to UTF-8", bad="encoding detection is not 'utf-16, then utf-8 on UnicodeError'")
-    rep.floor(rule, 6)
+    rep.floor(rule, 12)
 
 
 def rule_duplicate_names(rep, rule="C-dupnames"):
